@@ -190,7 +190,8 @@ type filter struct {
 	rc     api.ReadFilterCallbacks
 	ctx    context.Context
 	s      *sink
-	scopes []api.ProtocolName // nil = all registered (Auto)
+	scopes []api.ProtocolName // nil = all registered (Auto); otherwise the configured protocol list
+	fixed  api.ProtocolName   // set: listener configured with this single protocol
 	ssc    types.ServerStreamConnection
 	proto  api.ProtocolName
 	failed bool
@@ -199,6 +200,12 @@ type filter struct {
 func (f *filter) OnNewConnection() api.FilterStatus { return api.Continue }
 func (f *filter) InitializeReadFilterCallbacks(cb api.ReadFilterCallbacks) {
 	f.rc = cb
+	// a listener configured with exactly one protocol: the stream connection exists before the first byte
+	// and no matcher runs (proxy.InitializeReadFilterCallbacks)
+	if f.fixed != "" {
+		f.proto = f.fixed
+		f.ssc = stream.CreateServerStreamConnection(f.ctx, f.fixed, cb.Connection(), f.s)
+	}
 }
 func (f *filter) OnData(buf api.IoBuffer) api.FilterStatus {
 	if f.failed {
@@ -247,14 +254,27 @@ func baseCtx() context.Context {
 	return ctx
 }
 
-func newHarness(proto string, auto bool) *harness {
+// other is a second protocol for the "list" mode (a listener configured with several protocols)
+func other(proto string) string {
+	if proto == "dubbo" {
+		return "bolt"
+	}
+	return "dubbo"
+}
+
+// mode: "fixed" (listener configured with this one protocol: no matcher), "auto" (all registered protocols),
+// "list" (a protocol list: matchers of the listed protocols only)
+func newHarness(proto string, mode string) *harness {
 	ctx := baseCtx()
 	cc := newChunkConn()
 	h := &harness{cc: cc, s: &sink{notify: make(chan struct{}, 1), h1: proto == "Http1"}}
 	h.conn = network.NewServerConnection(ctx, cc, nil)
 	h.f = &filter{ctx: ctx, s: h.s}
-	if !auto {
-		h.f.scopes = []api.ProtocolName{api.ProtocolName(proto)}
+	switch mode {
+	case "fixed":
+		h.f.fixed = api.ProtocolName(proto)
+	case "list":
+		h.f.scopes = []api.ProtocolName{api.ProtocolName(other(proto)), api.ProtocolName(proto)}
 	}
 	h.conn.FilterManager().AddReadFilter(h.f)
 	h.conn.FilterManager().InitializeReadFilters()
@@ -414,14 +434,14 @@ var tr *vh.Trace
 var nruns, nfeeds int
 
 // play feeds r.all cut at `cuts` (ascending offsets, last = len) and records the trace. ref run: cls "whole".
-func (r *run) play(cls string, cuts []int, auto bool) (aborted bool) {
+func (r *run) play(cls string, cuts []int, mode string) (aborted bool) {
 	if givenUp() {
 		return true
 	}
-	tr.Emit(vh.Ev{"ev": "run", "proto": r.sp.Proto, "cls": cls, "lens": r.lens, "units": r.units, "auto": auto,
+	tr.Emit(vh.Ev{"ev": "run", "proto": r.sp.Proto, "cls": cls, "lens": r.lens, "units": r.units, "mode": mode,
 		"conts": r.sp.Conts, "shapes": r.sp.Shapes, "cuts": cuts})
 	nruns++
-	h := newHarness(r.sp.Proto, auto)
+	h := newHarness(r.sp.Proto, mode)
 	defer h.close()
 	prev, reported := 0, 0
 	ends := make([]int, len(r.lens))
@@ -537,6 +557,15 @@ func zoneEnds(m msg, modelLen int) []int {
 type zcase struct {
 	Frames []int `json:"frames"`
 	Cuts   []int `json:"cuts"`
+	Pre    int   `json:"pre"` // model length of the connection preface (Framing.tla Preface), 0 = none
+}
+
+// prefaceLen is the length of the fixed connection preface a client of this protocol sends first.
+func prefaceLen(proto string) int {
+	if proto == "Http2" {
+		return 24
+	}
+	return 0
 }
 
 func shapesFor(frames []int, variant int) []int {
@@ -551,20 +580,33 @@ func shapesFor(frames []int, variant int) []int {
 	return sh
 }
 
-func concreteCuts(r *run, frames, cuts []int) []int {
+func concreteCuts(r *run, z zcase) []int {
 	// model offset -> concrete offset
 	m2c := map[int]int{0: 0}
 	mo, co := 0, 0
-	for k, f := range frames {
+	pl := 0
+	if z.Pre > 0 {
+		// the preface's model bytes: first byte | middle | last byte - 1 | last byte
+		pl = prefaceLen(r.sp.Proto)
+		pz := []int{1, pl / 2, pl - 1, pl}
+		for k := 1; k <= z.Pre && k <= len(pz); k++ {
+			m2c[k] = pz[k-1]
+		}
+		mo = z.Pre
+	}
+	for k, f := range z.Frames {
 		ze := zoneEnds(r.msgs[k], f)
-		for z := 1; z <= f; z++ {
-			m2c[mo+z] = co + ze[z-1]
+		if k == 0 && pl > 0 {
+			ze[0] = pl + 1 // "first byte" of the first message is the first byte behind the preface
+		}
+		for zi := 1; zi <= f; zi++ {
+			m2c[mo+zi] = co + ze[zi-1]
 		}
 		mo += f
 		co += len(r.msgs[k].b)
 	}
 	out := []int{}
-	for _, c := range cuts {
+	for _, c := range z.Cuts {
 		out = append(out, m2c[c])
 	}
 	return out
@@ -579,7 +621,7 @@ func withRef(sp streamSpec) (*run, bool) {
 		return r, r != nil
 	}
 	r := prepare(sp)
-	ab := r.play("whole", []int{len(r.all)}, false)
+	ab := r.play("whole", []int{len(r.all)}, "fixed")
 	if ab || len(r.ref) != len(r.msgs) {
 		refCache[string(key)] = nil
 		return nil, false
@@ -667,6 +709,9 @@ func main() {
 				v := v
 				work(func() {
 					for ci, z := range zs {
+						if z.Pre > 0 && prefaceLen(v.Proto) == 0 {
+							continue // cases with a connection preface are for the protocols that have one
+						}
 						sp := v
 						sp.Shapes = shapesFor(z.Frames, ci)
 						r, ok := withRef(sp)
@@ -676,8 +721,10 @@ func main() {
 							}
 							continue
 						}
-						if r.play("zones", concreteCuts(r, z.Frames, z.Cuts), ci%2 == 0) && hung {
-							return
+						for _, mode := range []string{"fixed", "auto"} { // the same cut set for both configurations
+							if r.play("zones", concreteCuts(r, z), mode) && hung {
+								return
+							}
 						}
 					}
 				})
@@ -701,16 +748,18 @@ func main() {
 					}
 					n := len(r.all)
 					for c := 1; c < n; c++ {
-						if r.play("single-cut", []int{c, n}, c%2 == 0) && hung {
-							return
+						for _, mode := range []string{"fixed", "auto"} {
+							if r.play("single-cut", []int{c, n}, mode) && hung {
+								return
+							}
 						}
 					}
 					one := []int{}
 					for c := 1; c <= n; c++ {
 						one = append(one, c)
 					}
-					for _, auto := range []bool{false, true} {
-						if r.play("bytewise", one, auto) && hung {
+					for _, mode := range []string{"fixed", "auto", "list"} {
+						if r.play("bytewise", one, mode) && hung {
 							return
 						}
 					}
@@ -733,8 +782,10 @@ func main() {
 							}
 							cuts = append(cuts, pos)
 						}
-						if r.play("random", cuts, k%2 == 0) && hung {
-							return
+						for _, mode := range []string{"fixed", "auto", "list"} {
+							if r.play("random", cuts, mode) && hung {
+								return
+							}
 						}
 					}
 					if v.Proto == "tars" {
@@ -770,8 +821,10 @@ func main() {
 							}
 							cuts = append(cuts, pos)
 						}
-						if rb.play("big-random", cuts, k%2 == 0) && hung {
-							return
+						for _, mode := range []string{"fixed", "auto"} {
+							if rb.play("big-random", cuts, mode) && hung {
+								return
+							}
 						}
 					}
 				})
